@@ -125,11 +125,11 @@ def HlIn.maxPrime (i : HlIn) : Nat := if i.isD then i.y else min i.y (i.z / isqr
 
 def hlTableMax : Nat := 30000000
 
-/-- the NT table: reaches `max_prime` and `y` (what the code's tables hold) and, for the π cut-off of `hlPhi`, the sieve
+/-- the NT table: reaches `max_prime`, `y` and (D) `z` (what the code's tables hold / the leaf enumeration reads) and, for the π cut-off of `hlPhi`, the sieve
     limit when that is moderate -/
 def hlTable (i : HlIn) : Option NT :=
-  let need := max i.maxPrime i.y + 2
-  let n := max need (min (i.limit + 2) 4000000)
+  let need := max (max i.maxPrime i.y) (if i.isD then i.z else 0) + 2
+  let n := max need (min (i.limit + 2) 1000000)
   if need > hlTableMax then none else some (NT.build n)
 
 def hlFactorOf (arr : FtArr) (i : Nat) : Nat :=
